@@ -61,6 +61,11 @@ CLAIMED = {
   "All 8.6k cells are executed: a real DialContext and a follow-up request against the real BatchExecutor (default and after SetSupportedProtocolVersions) and scripted servers (ascending, every permutation, unoffered versions, empty list, discovery unsupported); adopted version, failure, membership and the header of the follow-up request are compared with the reference. exhaustive:true.",
   "Trusted: the 10-line reference. One deterministic exchange per cell (no schedule quantifier in this property).",
   "DESIGN.md §3 C13"),
+ "C17": ("exploration", "ref",
+  "exhaustive enumeration of the finite registry (all 2^24 tag numbers probed, every enumeration value, every mask flag) against a pinned table and an independent source (names used by the 410 OASIS vector files), with by-name round trips through XML, JSON and text",
+  "Live registry == pinned/registry.json in both directions; name->number->name and number->name->number identities through every public lookup and through one-item XML/JSON documents; unregistered numbers and names per scope; no duplicate names per scope. exhaustive:true.",
+  "Trusted: pinned/registry.json (generated from the pinned commit, spot-reviewed against the KMIP 1.4 tables, cross-checked on every run against 83k element names and 12.9k enumeration names of the vectors).",
+  "DESIGN.md §3 C17"),
 }
 NOT_YET = "check not built yet in this session (planned, see DESIGN.md §3)"
 NA = {}
